@@ -2,6 +2,7 @@
    with.  `cap_can_append` / `silent` are the model's (Model/ContStore.v); here only the list of all
    capabilities in the extractor's order, a code to compare capability lists, and the thread routes.
    No proofs here (Proofs/CapEffectsProofs.v). *)
+From Coq Require String.
 From RipV Require Import Base.Prelude Model.Frames Model.Log Model.ContStore.
 
 (* the 7 append_* functions reachable from outside the store (public or through ripd::verif) *)
@@ -56,3 +57,10 @@ Definition has_cap_row (tbl : list (cap * bool)) (code : N) (b : bool) : bool :=
   existsb (fun x => (cap_code (fst x) =? code) && Bool.eqb (snd x) b) tbl.
 Definition has_route_row (tbl : list (N * bool)) (i : N) (b : bool) : bool :=
   existsb (fun x => (fst x =? i) && Bool.eqb (snd x) b) tbl.
+
+(* helpers (methods of impl ContinuityStore) that a read-only capability shares with a capability that
+   may append, as listed by the extractor with their "can reach self.event_log.append" bit: the table
+   is not empty and no shared helper can append (builder log02b; seed C02-5 put an append into
+   find_inflight_compaction_job_id_best_effort_v1, which compaction_status_v1 shares with the scheduler) *)
+Definition shared_helpers_silent (t : list (String.string * bool)) : bool :=
+  negb (Nat.eqb (List.length t) 0) && forallb (fun x => negb (snd x)) t.
